@@ -455,12 +455,12 @@ def diff_case(part, out: dict, case, flags, model, err, q) -> None:
         part.count(f"ir_outside_model={e.args[0][:30]}")
         return
     mod = sc.canon_world(out["world"])
-    lenient = bool(flags.get("shape_only") or flags.get("vinfo_metadata"))
+    lenient = bool(flags.get("vinfo_metadata"))
     if lenient:
-        # D51 (shape without type) / value-info metadata: info tokens not comparable; connectivity only
+        # value-info metadata is merged by the real code: documentation tokens not comparable
         for w in (real, mod):
             for c in w["vals"]:
-                c["info"] = None
+                c["info"] = [c["info"][0], c["info"][1], None]
     if real != mod:
         what = "deserialized IR differs"
         for k in ("root", "tens"):
